@@ -228,7 +228,7 @@ theorem c14_error_reported_ws (svc : WsSvc σ M R) (s : σ) (path : String) (buf
   cases hc : (svc.call s path m).2 with
   | ret r => exact absurd hc (hbad r)
   | fail f => exact ⟨.handler, f, by simp [callBarrier], Or.inl rfl⟩
-  | panics f => exact ⟨.panic, f, by simp [callBarrier], Or.inr rfl⟩
+  | panics v f => exact ⟨.panic, f, by simp [callBarrier], Or.inr rfl⟩
 
 /-- **a REST handler error or panic is reported to that client** with status 400, leaves the
 registration-time object alone and moves only what the handler did to the service state. -/
@@ -242,7 +242,28 @@ theorem c14_error_reported_rest (h : RestH σ O B R) (slot : O) (s : σ) (q : Re
   cases hc : (h.call s obj).2 with
   | ret r => exact absurd hc (hbad r)
   | fail f => exact ⟨.handler, by simp [callBarrier], Or.inl rfl, rfl⟩
-  | panics f => exact ⟨.panic, by simp [callBarrier], Or.inr rfl, rfl⟩
+  | panics v f => exact ⟨.panic, by simp [callBarrier], Or.inr rfl, rfl⟩
+
+/-- **a panicking handler is always an error, whatever it panics with**: an `error`, a `string` or
+any other value (`panic(42)`, a struct, the argument list of `log.Panicf`) -/
+theorem c14_panic_any_value_is_error {R : Type} (v : PanicVal) (fits : Bool) :
+    callBarrier (R := R) (.panics v fits) = .error (.panic, fits) := rfl
+
+/-- … hence the websocket client gets a close with reason "panic" and the REST client status 400,
+never a reply, for every kind of panic value -/
+theorem c14_panic_reported (svc : WsSvc σ M R) (h : RestH σ O B R) (s : σ) (path : String) (buf : Bytes) (m : M)
+    (v : PanicVal) (fits : Bool) (slot obj : O) (q : RestReq B)
+    (hreg : svc.registered path = true) (hdec : svc.decode path buf = .ok m)
+    (hp : (svc.call s path m).2 = .panics v fits)
+    (hm : q.method = h.method) (hd : restDecode h h.zero q = (obj, none))
+    (hp' : (h.call s obj).2 = .panics v fits) :
+    (processClientRequest svc s path buf).2 = .close .panic fits ∧
+    (restHandle h .perRequest slot s q).2.2 = .err .panic := by
+  constructor
+  · unfold processClientRequest
+    simp [hreg, hdec, hp, callBarrier]
+  · unfold restHandle
+    simp [hm, hd, restCall, hp', callBarrier]
 
 /-! ### the server under concurrent clients -/
 
@@ -698,6 +719,83 @@ theorem c14_client_without_lock_swaps :
         = [([1], .finished [2, 0]), ([2], .finished [1, 0])] :=
   ⟨[.caller 0, .caller 1, .caller 1, .caller 0, .server, .server, .caller 0, .caller 1], by decide⟩
 
+/-! ### the client: several nodes asked at once -/
+
+/-- invariant of `SendProtobufParallelWithDecoder`: once a winner is announced, `ret` holds the
+reply of exactly that node -/
+def Par.Inv (p : Par) : Prop :=
+  (p.done = true → ∃ i r, p.winner = some i ∧ p.replies[i]? = some r ∧ p.ret = some r) ∧
+  (∀ (i : Nat) pc, p.pcs[i]? = some pc → pc ≠ .decoding ∧ pc ≠ .announce)
+
+theorem parStep_inv (p p' : Par) (i : Nat) (h : parStep true p i = some p') (hi : p.Inv) :
+    p'.Inv ∧ p'.replies = p.replies := by
+  unfold parStep at h
+  have hpc : ∀ (q : PPc) (j : Nat) pc, (p.pcs.set i q)[j]? = some pc → q ≠ .decoding → q ≠ .announce →
+      pc ≠ .decoding ∧ pc ≠ .announce := by
+    intro q j pc hj h1 h2
+    rcases getElem?_set_eq' _ _ _ _ _ hj with ⟨_, rfl⟩ | ⟨_, he⟩
+    · exact ⟨h1, h2⟩
+    · exact hi.2 j pc he
+  split at h
+  · simp only [Option.some.injEq] at h; subst h
+    exact ⟨⟨hi.1, fun j pc hj => hpc _ j pc hj (by simp) (by simp)⟩, rfl⟩
+  · rename_i r _ hr
+    simp only [if_true] at h
+    split at h
+    · simp only [Option.some.injEq] at h; subst h
+      exact ⟨⟨hi.1, fun j pc hj => hpc _ j pc hj (by simp) (by simp)⟩, rfl⟩
+    · simp only [Option.some.injEq] at h; subst h
+      exact ⟨⟨fun _ => ⟨i, r, rfl, hr, rfl⟩, fun j pc hj => hpc _ j pc hj (by simp) (by simp)⟩, rfl⟩
+  · rename_i hpcd _
+    exact absurd rfl (hi.2 i _ hpcd).1
+  · rename_i hpcd _
+    exact absurd rfl (hi.2 i _ hpcd).2
+  · simp at h
+
+/-- **the reply handed back belongs to the node handed back** (`SendProtobufParallel`,
+`SendProtobufParallelWithDecoder`): any number of nodes asked at once, replies arriving in any
+order and with any overlap — whenever a winner has been announced, `ret` holds the reply of exactly
+that node, and it never changes afterwards (it is an invariant of every later state too). -/
+theorem c14_parallel_pair (replies : List Bytes) (sched : List Nat) :
+    let p := parRun true (parInit replies) sched
+    p.done = true → ∃ i r, p.winner = some i ∧ replies[i]? = some r ∧ p.ret = some r := by
+  have h0 : (parInit replies).Inv := by
+    refine ⟨by simp [parInit], ?_⟩
+    intro i pc hpc
+    simp only [parInit, List.getElem?_map] at hpc
+    cases hr : replies[i]? with
+    | none => simp [hr] at hpc
+    | some r => simp [hr] at hpc; subst hpc; simp
+  suffices ∀ p : Par, p.Inv → p.replies = replies →
+      (parRun true p sched).Inv ∧ (parRun true p sched).replies = replies by
+    intro p hd
+    obtain ⟨hI, hr⟩ := this (parInit replies) h0 rfl
+    obtain ⟨i, r, h1, h2, h3⟩ := hI.1 hd
+    exact ⟨i, r, h1, by rw [← hr]; exact h2, h3⟩
+  induction sched with
+  | nil => intro p hp hr; exact ⟨hp, hr⟩
+  | cons a as ih =>
+    intro p hp hr
+    simp only [parRun]
+    split
+    · rename_i p' hs
+      obtain ⟨h1, h2⟩ := parStep_inv p p' a hs hp
+      exact ih p' h1 (h2.trans hr)
+    · exact ih p hp hr
+
+/-- decoding outside the mutex breaks it: two replies overlap, node 0 is handed back with node 1's
+reply in `ret` -/
+theorem c14_parallel_unlocked_decode_mismatch :
+    ∃ sched : List Nat,
+      let p := parRun false (parInit [[10], [11], [12]]) sched
+      p.done = true ∧ p.winner = some 0 ∧ p.ret = some [11] :=
+  ⟨[0, 1, 0, 1, 0, 1, 0, 1], by decide⟩
+
+/-- non-vacuity: with the mutex, the same arrival order hands back node 0 with node 0's reply -/
+example :
+    let p := parRun true (parInit [[10], [11], [12]]) [0, 1, 0, 1, 2, 2]
+    p.done = true ∧ p.winner = some 0 ∧ p.ret = some [10] := by decide
+
 /-! ### non-vacuity of the server theorems: a fresh system and a schedule that serves everything -/
 
 example :
@@ -727,8 +825,9 @@ theorem c14_shape_ServiceProcessor_ProcessClientRequest :
 
 theorem c14_shape_callInterfaceFunc :
     Shapes.processor_callInterfaceFunc =
-   ["defer{", "}", "arg.Elem", "Elem().Set", "f.Call", "ret[].Interface", "ret[].Interface",
-     "ret[].Interface", "ret[].Interface", "ret[].Interface"] := rfl
+   ["defer{", "if:(r!=nil)", "}", "arg.Elem", "Elem().Set", "f.Call", "if:streaming",
+     "ret[].Interface", "if:(ierr!=nil)", "return:", "ret[].Interface", "ret[].Interface",
+     "return:", "ret[].Interface", "if:(ierr!=nil)", "return:", "ret[].Interface", "return:"] := rfl
 
 theorem c14_shape_ServiceProcessor_RegisterRESTHandler :
     Shapes.processor_ServiceProcessor_RegisterRESTHandler =
@@ -777,6 +876,13 @@ theorem c14_shape_client_Client_closeConn :
 theorem c14_shape_client_Client_closeSingleUseConn :
     Shapes.websocket_client_Client_closeSingleUseConn =
    ["c.closeConn"] := rfl
+
+theorem c14_shape_client_Client_SendProtobufParallelWithDecoder :
+    Shapes.websocket_client_Client_SendProtobufParallelWithDecoder =
+   ["protobuf.Encode", "opt.GetList", "recv:done", "recv:nodesChan", "c.Send", "send:errChan",
+     "decoding.Lock", "recv:done", "decoder", "send:errChan", "send:decodedChan", "close:done",
+     "decoding.Unlock", "go{", "contactNode", "}", "recv:decodedChan", "recv:errChan",
+     "opt.Quit", "close:done"] := rfl
 
 
 end C14
